@@ -90,15 +90,15 @@ theorem label_sim {L iter : List String} {l : String} {mr : MR St} {sr : SR St}
         by_cases ht : t = l
         · subst ht; simp [isBreakIn, h3, Sim, hp, KindRel]
         · have : ¬ (c.t = CT.brk l) := by rw [h3]; intro hc; injection hc with hc; exact ht hc
-          simp [isBreakIn, ht, this, Sim, hp, KindRel, h3]
+          simp [isBreakIn, ht, Sim, hp, KindRel, h3]
       | cont t =>
         simp only [KindRel] at h3
         have : ¬ (c.t = CT.brk l) := by rw [h3.1]; intro hc; cases hc
-        simp [isBreakIn, this, Sim, hp, KindRel, h3]
+        simp [isBreakIn, Sim, hp, KindRel, h3]
       | ret v =>
         simp only [KindRel] at h3
         have : ¬ (c.t = CT.brk l) := by rw [h3.1]; intro hc; cases hc
-        simp [isBreakIn, this, Sim, hp, KindRel, h3]
+        simp [isBreakIn, Sim, hp, KindRel, h3]
       | empty =>
         simp only [KindRel] at h3
         simp only [isBreakIn, Bool.false_eq_true, if_false]
